@@ -149,6 +149,11 @@ struct World {
       locks.emplace_back(new Lock{});
       vsched::name_object(&(locks.back()->lock_), "L" + std::to_string(i));
     }
+    if constexpr (std::is_same_v<Lock, ::dbgroup::lock::MCSLock>) {
+      vsched::set_node_naming(sc.nlocks, (1ULL << 47U) - 1ULL);
+    } else {
+      vsched::set_node_naming(1 << 30, 0);
+    }
     pay.resize(sc.nlocks);
     kinds = sc.kinds;
     int ns = 0, nsix = 0, nx = 0, no = 0, nc = 0;
@@ -447,7 +452,12 @@ run_scenario(const Scenario &sc)
       tok("X");
     });
   }
-  return vsched::run(bodies, sc.opt);
+  auto status = vsched::run(bodies, sc.opt);
+  if constexpr (std::is_same_v<Lock, ::dbgroup::lock::MCSLock>) {
+    // every thread has exited: all queue nodes must have been freed
+    std::printf("NODES live=%d\n", vsched::live_nodes());
+  }
+  return status;
 }
 
 int
